@@ -502,11 +502,13 @@ def specialise_switch(b, pred, variant):
         sel = pred(e, enum)
         if sel:
             # pred may name the variant itself (a string) or a truth value for a boolean switch
-            want = sel if isinstance(sel, str) else variant
+            want = sel if (isinstance(sel, str) or (isinstance(sel, int) and not isinstance(sel, bool))) else variant
             if want in ("true", "false") and not labels:
                 t_ = b.term(bb)
                 zero = [tb for v, tb in t_["arms"] if int(v) == 0]
                 tgt = (t_["otherwise"] if want == "true" else (zero[0] if zero else None))
+            elif want == "otherwise":
+                tgt = oth
             else:
                 tgt = labels.get(want, oth)
             if tgt is None:
